@@ -789,7 +789,7 @@ func c28gen(r *rand.Rand, tier string, emit func(string)) {
 	u2 := d2
 	n2 := 160
 	if tier == "thorough" {
-		n2 = 1500
+		n2 = 700
 	}
 	if len(u2) > n2 {
 		idx := r.Perm(len(u2))[:n2]
@@ -832,7 +832,7 @@ func c28gen(r *rand.Rand, tier string, emit func(string)) {
 	ntr := 0
 	maxtr := 8000
 	if tier == "thorough" {
-		maxtr = 200000
+		maxtr = 100000
 	}
 	for _, h := range order {
 		c := byHash[h]
@@ -859,7 +859,7 @@ func c28gen(r *rand.Rand, tier string, emit func(string)) {
 	}
 	nif := 10000
 	if tier == "thorough" {
-		nif = 400000
+		nif = 150000
 	}
 	for i := 0; i < nif; i++ {
 		emit("tr " + ifs[r.Intn(len(ifs))] + " " + ifs[r.Intn(len(ifs))] + " " + ifs[r.Intn(len(ifs))])
@@ -878,7 +878,7 @@ func c28gen(r *rand.Rand, tier string, emit func(string)) {
 	}
 	nh, nops := 120, 60
 	if tier == "thorough" {
-		nh, nops = 3000, 120
+		nh, nops = 1500, 120
 	}
 	for h := 0; h < nh; h++ {
 		if h%40 == 39 {
@@ -929,7 +929,7 @@ func c28gen(r *rand.Rand, tier string, emit func(string)) {
 func init() {
 	register(&Prop{
 		ID: "C28",
-		Rule: "bounded-exhaustive: every ordered pair (both orders in one op) of the depth-1 universe (6 leaves incl. byte/uint8 alias and 2 named; arrays, slices, pointers, chans, maps, structs over 14 field shapes, signatures with receivers/variadic, tuples, interfaces = 18 explicit method sets x 12 sets of embedded named interfaces) and of a depth-2 universe (10 constructors over depth 1; quick: seeded sample of 160, thorough: 1500); transitivity triples inside hash classes and random triples of interfaces; random Set/At/Delete/Len/Iterate histories on typeutil.Map against a linear-scan association list. Non-trivial: every id op, triples with x~y and y~z, map ops on non-empty maps.",
+		Rule: "bounded-exhaustive: every ordered pair (both orders in one op) of the depth-1 universe (6 leaves incl. byte/uint8 alias and 2 named; arrays, slices, pointers, chans, maps, structs over 14 field shapes, signatures with receivers/variadic, tuples, interfaces = 18 explicit method sets x 12 sets of embedded named interfaces) and of a depth-2 universe (10 constructors over depth 1; quick: seeded sample of 160, thorough: 700); transitivity triples inside hash classes and random triples of interfaces; random Set/At/Delete/Len/Iterate histories on typeutil.Map against a linear-scan association list. Non-trivial: every id op, triples with x~y and y~z, map ops on non-empty maps.",
 		Gen:        c28gen,
 		Exec:       c28exec,
 		Exhaustive: func(tier string) bool { return true },
